@@ -39,7 +39,7 @@ func VerifC16_Piles() {
 			nm := string(rune('0'+i)) + string(rune('a'+j))
 			l := verifChoice("loc"+nm, nloc)
 			s := verifInt("s"+nm, 0, maxs)
-			e := s + verifInt("l"+nm, 1, maxl)
+			e := s + verifInt("l"+nm, verifParam("minlen"), maxl)
 			fs[j] = &Feature{ID: "f" + nm, From: s, To: e, Loc: locs[l]}
 			specs[i][j] = verifSpec{l, s, e, fs[j]}
 		}
